@@ -110,6 +110,18 @@ Definition at_insert (trk : list nat) (krs : list (key * row)) (listed : option 
       end
   end.
 
+(* INSERT into a table WITHOUT an AUTO_INCREMENT column: every listed key value, 0 included, is an ordinary value and is
+   the key of its row; the key columns cannot be omitted *)
+Definition at_insert_plain (trk : list nat) (krs : list (key * row)) (listed : option (list key)) (t : tbl) : res :=
+  match insert_rows krs t with
+  | None => Err EDupKey
+  | Some t' =>
+      match listed with
+      | None => Err ERecover
+      | Some ks => Ok t' [] (img_of trk t' ks)
+      end
+  end.
+
 (* INSERT ... ON DUPLICATE KEY UPDATE (insert_on_update_executor.go): m = keys of the existing rows that collide with
    a VALUES row on some unique key (the before-image query: one arm per unique index and VALUES row), u = the ON
    DUPLICATE KEY UPDATE assignments, krs = the rows that do not collide and are inserted.  Both images carry all
